@@ -241,7 +241,10 @@ Qed.
 (* the grouping into records neither loses nor reorders bytes, never makes an empty record and
    never exceeds 65500 bytes of content *)
 Lemma flush_concat cur : concat (flush cur) = concat (rev cur).
-Proof. destruct cur; [reflexivity|]. unfold flush. cbn [concat]. apply app_nil_r. Qed.
+Proof. unfold flush. apply chunks_concat, maxw_pos. Qed.
+
+Lemma flush_bounds cur g : In g (flush cur) -> g <> [] /\ len g <= MAXW.
+Proof. unfold flush. apply stream_chunks_bounds. Qed.
 
 Lemma group_concat es : forall nn cur, concat (group es nn cur) = concat (rev cur) ++ concat es.
 Proof.
@@ -252,52 +255,29 @@ Proof.
     + rewrite IH. cbn [rev]. rewrite concat_app. cbn [concat]. rewrite app_nil_r, <- app_assoc. reflexivity.
 Qed.
 
-Lemma concat_rev_nonempty (cur : list bytes) :
-  cur <> [] -> (forall e, In e cur -> e <> []) -> concat (rev cur) <> [].
+(* whatever the sizes of the pairs *)
+Lemma group_bounds es : forall nn cur g, In g (group es nn cur) -> g <> [] /\ len g <= MAXW.
 Proof.
-  intros Hne Hall H. destruct cur as [|e cur]; [congruence|].
-  cbn [rev] in H. rewrite concat_app in H. apply app_eq_nil in H as [_ H].
-  cbn [concat] in H. rewrite app_nil_r in H. apply (Hall e); [left; reflexivity | exact H].
+  induction es as [|e es IH]; intros nn cur g Hg; cbn [group] in Hg.
+  - apply flush_bounds in Hg. exact Hg.
+  - destruct (MAXW <? nn + len e).
+    + apply in_app_or in Hg as [Hg|Hg]; [apply flush_bounds in Hg; exact Hg | eapply IH; exact Hg].
+    + eapply IH; exact Hg.
 Qed.
 
-Lemma group_bounds es : forall nn cur,
-  (forall e, In e es -> e <> [] /\ len e <= MAXW) ->
-  (forall e, In e cur -> e <> []) ->
-  nn = len (concat (rev cur)) -> nn <= MAXW ->
-  forall g, In g (group es nn cur) -> g <> [] /\ len g <= MAXW.
-Proof.
-  induction es as [|e es IH]; intros nn cur Hes Hcur Hnn Hle g Hg; cbn [group] in Hg.
-  - destruct cur as [|c cur]; [contradiction|]. destruct Hg as [<-|[]].
-    split; [apply concat_rev_nonempty; [discriminate | exact Hcur] | subst nn; exact Hle].
-  - destruct (Hes e (or_introl eq_refl)) as [Hene Hele].
-    destruct (MAXW <? nn + len e) eqn:Hc.
-    + apply in_app_or in Hg as [Hg|Hg].
-      * destruct cur as [|c cur]; [contradiction|]. destruct Hg as [<-|[]].
-        split; [apply concat_rev_nonempty; [discriminate | exact Hcur] | subst nn; exact Hle].
-      * eapply (IH (len e) [e]); eauto.
-        -- intros e0 H0. apply Hes. right; exact H0.
-        -- intros e0 [<-|[]]. exact Hene.
-        -- cbn. rewrite app_nil_r. reflexivity.
-    + eapply (IH (nn + len e) (e :: cur)); eauto.
-      * intros e0 H0. apply Hes. right; exact H0.
-      * intros e0 [<-|H0]; [exact Hene | apply Hcur; exact H0].
-      * cbn [rev]. rewrite concat_app, len_app. cbn [concat]. rewrite app_nil_r. lia.
-      * lia.
-Qed.
-
-(* pairs that pass the code's own size test are not cut *)
+(* pairs that fit a single record are not cut *)
 Lemma trunc_all_id ps :
-  (forall kv, In kv ps -> 8 + len (fst kv) + len (snd kv) <= MAXW) -> trunc_all ps = Ok ps.
+  (forall kv, In kv ps -> fits kv = true) -> trunc_all ps = Ok ps.
 Proof.
   induction ps as [|[k v] ps IH]; intros H; [reflexivity|].
   cbn [trunc_all trunc_pair].
-  pose proof (H (k, v) (or_introl eq_refl)) as Hkv. cbn [fst snd] in Hkv.
-  assert (MAXW <? 8 + len k + len v = false) as -> by lia.
+  pose proof (H (k, v) (or_introl eq_refl)) as Hkv. unfold fits in Hkv.
+  assert (MAXW <? len (encode_pair (k, v)) = false) as -> by lia.
   cbn [rbind]. rewrite IH; [reflexivity|]. intros kv Hin. apply H. right; exact Hin.
 Qed.
 
 Lemma params_roundtrip ps rest w :
-  (forall kv, In kv ps -> 8 + len (fst kv) + len (snd kv) <= MAXW) ->
+  (forall kv, In kv ps -> fits kv = true) ->
   params_wire 1 ps = Ok w ->
   exists pb, read_stream T_PARAMS 1 (w ++ rest) = Some (pb, rest) /\ decode_pairs pb = Some ps.
 Proof.
@@ -308,14 +288,10 @@ Proof.
     + rewrite group_concat. reflexivity.
     + vm_compute; reflexivity.
     + vm_compute; reflexivity.
-    + intros c Hc. eapply group_bounds in Hc.
-      * destruct Hc as [Hne Hle]. split; [exact Hne|]. unfold MAXW in Hle. lia.
-      * intros e He. apply in_map_iff in He as (kv & <- & Hkv). split; [apply encode_pair_nonempty|].
-        pose proof (encode_pair_bounds kv). specialize (Hfit kv Hkv). lia.
-      * intros e [].
-      * reflexivity.
-      * vm_compute. discriminate.
-  - apply pairs_roundtrip. intros kv Hkv. specialize (Hfit kv Hkv). unfold MAXW in Hfit. lia.
+    + intros c Hc. apply group_bounds in Hc.
+      destruct Hc as [Hne Hle]. split; [exact Hne|]. unfold MAXW in Hle. lia.
+  - apply pairs_roundtrip. intros kv Hkv. specialize (Hfit kv Hkv). unfold fits in Hfit.
+    pose proof (encode_pair_bounds kv). unfold MAXW in Hfit. lia.
 Qed.
 
 (* ---- the whole request ---- *)
@@ -344,7 +320,7 @@ Proof.
 Qed.
 
 Lemma request_roundtrip ps body w :
-  (forall kv, In kv ps -> 8 + len (fst kv) + len (snd kv) <= MAXW) ->
+  (forall kv, In kv ps -> fits kv = true) ->
   request_wire ps body = Ok w ->
   responder_receive w = Some (1, 0, ps, body_bytes body).
 Proof.
@@ -361,34 +337,12 @@ Proof.
   reflexivity.
 Qed.
 
-(* a pair that fits one record but fails the code's 8+len(k)+len(v) test is cut *)
+(* the pair that refuted the statement for the unrepaired code (10-byte name, 65485-byte value:
+   the encoding is exactly 65500 bytes, 8+len(k)+len(v) is 65503) *)
 Definition wit_k : bytes := repeat 75 10.
 Definition wit_v : bytes := repeat 118 (N.to_nat 65485).
-Definition unwrap (r : res bytes) : bytes := match r with Ok w => w | Panic => [] end.
-Definition wit_wire : bytes := unwrap (request_wire [(wit_k, wit_v)] None).
-Definition wit_v' : bytes := firstn (N.to_nat 65482) wit_v.
-
-Lemma unwrap_ok (r : res bytes) : is_panic r = false -> r = Ok (unwrap r).
-Proof. destruct r; [reflexivity | discriminate]. Qed.
-
-Lemma pairs_fit_refuted :
-  exists k v, fits (k, v) = true /\
-    exists w v', request_wire [(k, v)] None = Ok w /\
-                 responder_receive w = Some (1, 0, [(k, v')], []) /\ len v' < len v.
-Proof.
-  exists wit_k, wit_v. split; [vm_compute; reflexivity|].
-  exists wit_wire, wit_v'.
-  split; [apply unwrap_ok; vm_compute; reflexivity|].
-  split; [|vm_compute; reflexivity].
-  assert (H : match responder_receive wit_wire with
-              | Some (r, f, [(k, v)], []) => (r =? 1) && (f =? 0) && beq k wit_k && beq v wit_v'
-              | _ => false end = true) by (vm_compute; reflexivity).
-  destruct (responder_receive wit_wire) as [[[[r f] ps] bd]|]; [|discriminate].
-  destruct ps as [|[k v] [|? ?]]; try discriminate. destruct bd; [|discriminate].
-  apply andb_true_iff in H as [H H4]. apply andb_true_iff in H as [H H3].
-  apply andb_true_iff in H as [H1 H2].
-  apply N.eqb_eq in H1, H2. apply beq_eq in H3, H4. subst. reflexivity.
-Qed.
+Lemma wit_fits : fits (wit_k, wit_v) = true /\ MAXW < 8 + len wit_k + len wit_v.
+Proof. split; vm_compute; reflexivity. Qed.
 
 (* ================= response side ================= *)
 Definition valid_rec (r : N * bytes * N) : Prop :=
@@ -739,19 +693,29 @@ Proof.
   cbn [serve]. rewrite (index_file_none _ _ c Hc Hcs).
   destruct (stat_ok (trim_right p)) eqn:Hst; cbn [negb].
   - (* the file exists: the extension test decides *)
-    rewrite Hc. assert (c =? SLASH = false) as -> by (apply N.eqb_neq; exact Hcs). cbn [orb].
     destruct Hin as [-> | Hin].
-    + rewrite Hm, Ha, Hsplit, Hsuf. cbn [negb]. eexists; reflexivity.
+    + rewrite Hm, Ha, Hsplit, Hsuf, orb_true_r. cbn [negb]. eexists; reflexivity.
     + destruct (negb (rule_matches cs r0 p)); [eapply IH; eauto|].
       destruct (negb (allowed cs r0 p)); [eapply IH; eauto|].
       destruct (can_split cs r0 (trim_right p)); [|eapply IH; eauto].
-      destruct (has_suffix (to_lower (trim_right p)) (to_lower (r_ext r0))); [eexists; reflexivity | eapply IH; eauto].
+      destruct (ends_with_slash (trim_right p) || has_suffix (to_lower (trim_right p)) (to_lower (r_ext r0)));
+        [eexists; reflexivity | eapply IH; eauto].
   - (* no such file: any rule that can split takes it *)
     destruct Hin as [-> | Hin].
     + rewrite Hm, Ha, Hsplit. cbn [negb]. eexists; reflexivity.
     + destruct (negb (rule_matches cs r0 p)); [eapply IH; eauto|].
       destruct (negb (allowed cs r0 p)); [eapply IH; eauto|].
       destruct (can_split cs r0 (trim_right p)); [eexists; reflexivity | eapply IH; eauto].
+Qed.
+
+(* the dispatch decision has no index expression left: it never panics *)
+Lemma serve_no_panic rules : forall i p, serve cs stat_ok open_ok rules i p <> OPanic.
+Proof.
+  induction rules as [|r rules IH]; intros i p; cbn [serve]; [discriminate|].
+  repeat match goal with
+  | |- context [if ?b then _ else _] => destruct b
+  | |- context [match ?x with Some _ => _ | None => _ end] => destruct x
+  end; try discriminate; apply IH.
 Qed.
 
 End DispatchProofs.
@@ -834,28 +798,33 @@ Proof.
   cbn [rbind]. eauto.
 Qed.
 
-(* ---- no panic on the request side when every name leaves room for the cut ---- *)
-Lemma trunc_all_total ps :
-  (forall kv, In kv ps -> 8 + len (fst kv) <= MAXW) -> exists tps, trunc_all ps = Ok tps.
+(* ---- no panic on the request side, whatever the sizes of names and values ---- *)
+Lemma trunc_pair_total kv : exists kv', trunc_pair kv = Ok kv'.
 Proof.
-  induction ps as [|[k v] ps IH]; intros H; [eexists; reflexivity|].
-  cbn [trunc_all trunc_pair].
-  pose proof (H (k, v) (or_introl eq_refl)) as Hk. cbn [fst] in Hk.
-  destruct IH as [tps Ht]; [intros kv Hin; apply H; right; exact Hin|].
-  destruct (MAXW <? 8 + len k + len v).
-  - assert (MAXW <? 8 + len k = false) as -> by lia. cbn [rbind]. rewrite Ht. eexists; reflexivity.
-  - cbn [rbind]. rewrite Ht. eexists; reflexivity.
+  destruct kv as [k v]. unfold trunc_pair.
+  destruct (MAXW <? len (encode_pair (k, v))) eqn:Hc; [|eauto].
+  pose proof (encode_pair_bounds (k, v)) as B. cbn [fst snd] in B.
+  set (vl := if MAXW <? 8 + len k then 0 else MAXW - 8 - len k).
+  assert (Hvl : (N.to_nat vl <= length v)%nat).
+  { unfold vl. destruct (MAXW <? 8 + len k) eqn:Hk; unfold len, MAXW in *; lia. }
+  rewrite slice_0 by exact Hvl. cbn [rbind]. eauto.
 Qed.
 
-Lemma request_wire_total ps body :
-  (forall kv, In kv ps -> 8 + len (fst kv) <= MAXW) -> exists w, request_wire ps body = Ok w.
+Lemma trunc_all_total ps : exists tps, trunc_all ps = Ok tps.
 Proof.
-  intros H. destruct (trunc_all_total ps H) as [tps Ht].
+  induction ps as [|kv ps IH]; [eexists; reflexivity|].
+  cbn [trunc_all]. destruct (trunc_pair_total kv) as [kv' ->]. destruct IH as [tps ->].
+  cbn [rbind]. eexists; reflexivity.
+Qed.
+
+Lemma request_wire_total ps body : exists w, request_wire ps body = Ok w.
+Proof.
+  destruct (trunc_all_total ps) as [tps Ht].
   unfold request_wire, params_wire, params_records. rewrite Ht. cbn [rbind]. eexists; reflexivity.
 Qed.
 
 Lemma request_roundtrip_any_order ps order body w :
-  (forall kv, In kv ps -> 8 + len (fst kv) + len (snd kv) <= MAXW) ->
+  (forall kv, In kv ps -> fits kv = true) ->
   Permutation ps order ->
   request_wire order body = Ok w ->
   exists got, responder_receive w = Some (1, 0, got, body_bytes body) /\ Permutation ps got.
